@@ -1197,12 +1197,36 @@ func genSysCase(r *vh.Rng, thorough bool) sysCase {
 				deltas = []int{-1, 0, 1, 1, 30}
 			}
 			sz := c.MaxRec + r.PickI(deltas)
-			if l := msgLenForRecordSize(sz); l >= 0 {
+			// half of the boundary records of RPC/raw writes carry a write-level field and no own fields: the stored record then has
+			// a fields part of 1 (length prefix) + 4 bytes (`w=1`) that exists only because of the write-level fields — a size test
+			// that forgets them, or only their length prefix, is off exactly here
+			withWF := op.Via != "direct" && r.Chance(1, 2)
+			fieldsPart := 0
+			if withWF {
+				fieldsPart = 5
+			}
+			if l := msgLenForRecordSize(sz - fieldsPart); l >= 0 {
 				i := r.Intn(len(op.Evs))
 				op.Evs[i].Msg = HS(genBytes(r, l))
 				op.Evs[i].Fields = ""
 				if op.Via != "direct" {
 					op.WFields = ""
+					if withWF {
+						op.WFields = "w=1"
+						// the other events of the batch get the write-level field too: keep them inside the limit
+						for k := range op.Evs {
+							if k == i {
+								continue
+							}
+							efB, _ := parseKV(string(op.Evs[k].Fields))
+							for recSize(dEv{Ts: 0, Msg: op.Evs[k].Msg, Fields: HS("\x01w\x011" + string(efB))}) > maxRec && len(op.Evs[k].Msg) > 0 {
+								op.Evs[k].Msg = op.Evs[k].Msg[:len(op.Evs[k].Msg)/2]
+							}
+							if recSize(dEv{Ts: 0, Msg: op.Evs[k].Msg, Fields: HS("\x01w\x011" + string(efB))}) > maxRec {
+								op.Evs[k].Fields = ""
+							}
+						}
+					}
 				}
 			}
 		}
